@@ -121,6 +121,13 @@ class Check:
         self.notes = []
         self.ledger = Ledger()
         self.ncpu = int(os.environ.get('VERIF_JOBS', os.cpu_count() or 4))
+        # development aid: while several builders share the machine a cap file
+        # (never committed, lives under the ignored .cache/) limits the pool size
+        try:
+            with open(os.path.join(ROOT, '.cache', 'jobs_cap')) as f:
+                self.ncpu = max(1, min(self.ncpu, int(f.read().strip())))
+        except (OSError, ValueError):
+            pass
         self._pool = None
         self.deadline = None
         budget = os.environ.get('VERIF_BUDGET_S')
